@@ -260,9 +260,43 @@ def reach(g, a, b) -> bool:
     return False
 
 
+def extra_bases() -> List[Dict[str, Any]]:
+    def ch(prompt, kids, **kw):
+        # named, so that the choices can be told apart in the loop message
+        return Choice(name=prompt.upper(), prompt=prompt, children=kids, **kw)
+
+    out = []
+    # two choices, the second one's member already depends on a member of the first (acyclic)
+    out.append({"kind": "two_choices_linked", "prog": Program(children=[
+        ch("c1", [Cfg("A", "bool", prompt="a"), Cfg("B", "bool", prompt="b")]),
+        ch("c2", [Cfg("X", "bool", prompt="x", depends=[S("B")]), Cfg("Y", "bool", prompt="y")]),
+    ]), "setters": {}})
+    out.append({"kind": "two_choices_linked_via_option", "prog": Program(children=[
+        ch("c1", [Cfg("A", "bool", prompt="a"), Cfg("B", "bool", prompt="b")]),
+        Cfg("MID", "int", prompt="mid", defaults=[(L("1"), S("B")), (L("2"), None)]),
+        ch("c2", [Cfg("X", "bool", prompt="x", prompt_cond=Rel("=", S("MID"), L("1"))), Cfg("Y", "bool", prompt="y")]),
+        Cfg("OUT", "bool", prompt="out", defaults=[(S("Y"), None)]),
+    ]), "setters": {}})
+    out.append({"kind": "three_choices_chain", "prog": Program(children=[
+        ch("c1", [Cfg("A", "bool", prompt="a"), Cfg("B", "bool", prompt="b")]),
+        ch("c2", [Cfg("X", "bool", prompt="x", depends=[S("B")]), Cfg("Y", "bool", prompt="y")]),
+        ch("c3", [Cfg("P", "bool", prompt="p", depends=[S("Y")]), Cfg("Q", "bool", prompt="q")]),
+    ]), "setters": {}})
+    out.append({"kind": "choice_in_menu_dep", "prog": Program(children=[
+        Cfg("G", "bool", prompt="g"),
+        Menu(title="m", depends=[S("G")], children=[ch("c1", [Cfg("A", "bool", prompt="a"), Cfg("B", "bool", prompt="b")])]),
+        Cfg("T", "string", prompt="t", defaults=[(L('"a"'), S("A")), (L('"b"'), None)]),
+    ]), "setters": {}})
+    return out
+
+
+def all_bases(tier: str) -> List[Dict[str, Any]]:
+    return list(c03.all_programs(tier)) + extra_bases()
+
+
 def items(tier: str, seed: int):
     out = []
-    for p in c03.all_programs(tier):
+    for p in all_bases(tier):
         out.append({"base": p["kind"], "prog": p["prog"], "setters": p["setters"]})
     return out
 
@@ -383,7 +417,7 @@ def run_item(item) -> common.Result:
 
 
 def replay(case) -> List[dict]:
-    for p in c03.all_programs("thorough"):
+    for p in all_bases("thorough"):
         if p["kind"] == case["base"]:
             prog = p["prog"]
             if case["mutation"]:
